@@ -30,12 +30,14 @@ pub mod c20_exec;
 pub mod c21;
 pub mod c22;
 pub mod c23;
+pub mod c24;
 pub mod c25;
 pub mod c26;
 pub mod c27;
 pub mod c28;
 pub mod ledger;
 pub mod c33;
+pub mod c34;
 pub mod c35;
 pub mod c36;
 pub mod c29;
@@ -70,11 +72,13 @@ pub fn run(cfg: &Cfg) -> Option<Report> {
         "C21" => c21::run(cfg),
         "C22" => c22::run(cfg),
         "C23" => c23::run(cfg),
+        "C24" => c24::run(cfg),
         "C25" => c25::run(cfg),
         "C26" => c26::run(cfg),
         "C27" => c27::run(cfg),
         "C28" => c28::run(cfg),
         "C33" => c33::run(cfg),
+        "C34" => c34::run(cfg),
         "C35" => c35::run(cfg),
         "C36" => c36::run(cfg),
         "C29" => c29::run(cfg),
